@@ -429,7 +429,8 @@ class TFLiteSupportedOperators:
         valid = True
         extra = []
         if op.type not in cls.per_axis_quant_ops:
-            tensors = [tens for tens in op.get_ifm_ifm2_weights_ofm() if tens]
+            # operators with several outputs (SPLIT, SPLIT_V, UNPACK): every output counts
+            tensors = [tens for tens in list(op.get_ifm_ifm2_weights_ofm()) + op.outputs[1:] if tens]
             for tens in tensors:
                 if tens.quantization and tens.quantization.is_per_axis():
                     valid = False
